@@ -91,6 +91,9 @@ StuckHead(S, p) == LET P == S.p[p] IN
     \* a upipe_tblk whose buffer manager request reaches no sink (no output, or a downstream upipe_tblk
     \* keeps it for its probe) is never answered in this environment
     \/ P.ex /\ P.k = "tblk" /\ P.q # <<>> /\ ~P.um /\ StuckReq(S, p)
+    \* a upipe_tblk that was given a buffer before any flow definition (outside the rules: the flow definition
+    \* comes first) keeps it, and everything queued behind it, for good
+    \/ P.ex /\ P.k = "tblk" /\ P.q # <<>> /\ IsBuf(Head(P.q)) /\ ~P.um /\ P.fd = "-" /\ P.pf = "-"
 RECURSIVE StuckSet(_, _)
 StuckSet(S, X) == LET Y == X \cup {p \in PipeNames : S.p[p].ex /\ (S.p[p].out \in X
                                         \/ \E x \in X : S.p[x].ex /\ S.p[x].par = p)}
